@@ -10,6 +10,8 @@ TABLES = []
 LAKE_TARGETS = ["Moclo.Props.C06"]
 THEOREMS = ["Moclo.C06." + t for t in ["inv_init", "inv_query", "inv_run", "history_independent",
                                        "verdicts_independent", "verdicts_fresh", "inherited_cache_counterexample"]]
+# reductions under which a failing case stays a case of this property (see shrink.py)
+SHRINK = {"lists": ["history"]}
 RULE = ("ordered pairs 'validate a record with class A, then ask class B' over the 85 concrete kit classes (all "
         "related pairs parent/child always, the other pairs sampled in quick and exhaustive in thorough), longer "
         "random histories, and dynamically created subclasses; every history runs in a forked child of a process "
@@ -65,9 +67,12 @@ def answer(cls, word, topo="C", rec=None, keep=None):
 
 
 def resolve(classes, ref):
-    """ref = index, or ['sub', index] for a subclass created on the spot"""
+    """ref = index, or ['sub', index] for a subclass created on the spot, or ['sig', index, up, down] for a part
+    type declared on the spot with its own signature — all of the latter under one and the same class name"""
     if isinstance(ref, list):
         base = classes[ref[1]]
+        if ref[0] == "sig":
+            return type("Variant", (base,), {"signature": (ref[2], ref[3])})
         return type("Dyn" + base.__name__, (base,), {})
     return classes[ref]
 
@@ -136,6 +141,8 @@ def check_case(ctx, case):
         exp = fresh_answer(S, ref, word, topo)
         if g != exp:
             def nm(x):
+                if isinstance(x, list) and x[0] == "sig":
+                    return "part type 'Variant' {}/{} derived from {}".format(x[2], x[3], classes[x[1]].__name__)
                 return ("new subclass of " + classes[x[1]].__name__) if isinstance(x, list) else classes[x].__name__
             ctx.fail("after validating with {}, {} answers {} on a {} record for which a fresh interpreter answers {}".format(
                 [(nm(h[0]), h[2]) for h in hist[:i]] or "nothing", nm(ref), g[:2],
@@ -147,7 +154,10 @@ def check_case(ctx, case):
     # model: one class table per history (dynamic subclasses share their base's structure)
     table, idx = [], []
     for ref in refs:
-        cls = classes[ref[1]] if isinstance(ref, list) else classes[ref]
+        if isinstance(ref, list) and ref[0] == "sig":
+            cls = resolve(classes, ref)
+        else:
+            cls = classes[ref[1]] if isinstance(ref, list) else classes[ref]
         key = json.dumps(ref)
         if key not in [t[0] for t in table]:
             table.append((key, "^".join(impl.cls_fields(cls))))
@@ -188,6 +198,22 @@ def run(ctx):
         if related and rng.random() < 0.6:
             a, b = rng.choice(related)
             hist[-2:] = [[a, words[a]], [b, words[rng.choice([a, b])]]]
+        ctx.guard(check_case, {"history": hist})
+    # two part types declared under the same class name with different signatures (types made in a loop or by a
+    # factory): each is matched with its own structure
+    sigbases = [i for i, c in enumerate(classes) if getattr(c.structure, "__func__", None) is boot.AbstractPart.structure.__func__]
+    for _ in range(ctx.budget(60, 1200)):
+        if not sigbases:
+            break
+        a = rng.choice(sigbases)
+        k = len(classes[a].signature[0])
+        hist = []
+        for _ in range(rng.randint(2, 3)):
+            ref = ["sig", a, gen.rnd(rng, k), gen.rnd(rng, k)]
+            inst, _ = gen.instantiate(rng, resolve(classes, ref).structure(), runlen=rng.choice([2, 5]))
+            hist.append([ref, gen.rot(inst + gen.rnd(rng, 6), rng.randrange(8))])
+        if rng.random() < 0.5:
+            hist.append([hist[0][0], hist[-1][1]])      # the first type asked about the last record
         ctx.guard(check_case, {"history": hist})
     # one plasmid object typed with a class and then with a related class while the first wrapper is alive
     for _ in range(ctx.budget(120, 2500)):
